@@ -100,6 +100,13 @@ def _props_of(node: Any) -> list:
     return json.loads(canonical(out))
 
 
+def _safe(fn: Any) -> Any:
+    try:
+        return fn()
+    except Exception as e:  # noqa: BLE001 - a broken origin object shows up as a difference, not as a harness error
+        return ["<error>", type(e).__name__]
+
+
 def dump_tree(root: Any, sources: list) -> list:
     """pre-order structural dump with identity classes (own reflection)."""
     from pyoak.node import ASTNode
@@ -111,8 +118,8 @@ def dump_tree(root: Any, sources: list) -> list:
         k = ident.setdefault(id(n), len(ident))
         out.append({
             "path": path, "cls": type(n).__name__, "id": n.id, "cid": n.content_id, "props": _props_of(n),
-            "origin": og.origin_spec_of(n.origin, sources), "origin_fqn": n.origin.fqn,
-            "origin_source": [type(n.origin.source).__name__, n.origin.source.fqn],
+            "origin": og.origin_spec_of(n.origin, sources), "origin_fqn": _safe(lambda: n.origin.fqn),
+            "origin_source": _safe(lambda: [type(n.origin.source).__name__, n.origin.source.fqn]),
             "obj": k, "registered": ASTNode.get_any(n.id) is n, "clsobj": id(type(n)),
         })
         for c, fn, i in T.live_children(n):
